@@ -58,6 +58,11 @@ WrapperReset(initialHidden, hidden) == initialHidden
 \* where a copy of the wrapped standard distribution would.
 WrapperCopy(hidden) == hidden
 
+\* Parameters read back from a wrapper (param(): wrapped parameters -> decorated parameters) are
+\* the parameters it was given, so a distribution built from them - by the constructor, param(p),
+\* operator()(rng, p) or inside a variate - draws exactly like the original one.
+ReadBack(kind, par) == [a |-> Decorate(kind, Base(kind, par.a)), b |-> Decorate(kind, Base(kind, par.b))]
+
 \* enum distribution: all enumerators, i.e. the closed interval [0, max_value]
 EnumParams(maxIndex) == [a |-> Decorate("enum", 0), b |-> Decorate("enum", maxIndex)]
 
